@@ -53,6 +53,7 @@ class Answers:
                     p = self.n[par]
                     if p['kind'] == 'C' and p['strategy'] in ('Utilitarian', 'Random') and n['prong'] > 0:
                         ok = self.rank(node) <= self.rank(p['children'][0])
+                if par >= 0 and n['kind'] != 'L' and self.n[par]['kind'] == 'O' and n['prong'] > 0: ok = True
             if not ok: u = 1 + self.h(node, 4) % 8
         self._cache[key] = u
         return u
